@@ -30,7 +30,7 @@ impl Prop for C08 {
         vec!["depth statistics stay far below 2^24 so f32 holds them exactly".into()]
     }
     fn cases(tier: Tier) -> u64 {
-        tier.pick(5000, 150_000)
+        tier.pick(5000, 25_000)
     }
     fn strategy(tier: Tier) -> BoxedStrategy<c02::Case> {
         gen::bb_case(tier, true, false).prop_map(c02::make_case).boxed()
